@@ -525,6 +525,12 @@ def run_concurrent(env, scn, seed=0, schedule=None, p_tick=0.15, p_idle=0.1, bud
     steps = 0
     quiescent = False
     p_issue = rng.choice([1.0, 1.0, 0.5, 0.2]) if schedule is None else 1.0
+    # in a third of the runs one link (one pair of nodes, both directions) is starved: its bytes move only when nothing else can,
+    # which produces the long overtakings between connections that uniform choices rarely reach
+    starve = None
+    if schedule is None and len(net.nodes) > 1 and rng.random() < 0.34:
+        a_, b_ = rng.sample(range(len(net.nodes)), 2)
+        starve = {(a_, b_), (b_, a_)}
     while True:
         for b in boxes:
             if b.done and b.k not in done_logged:
@@ -563,7 +569,8 @@ def run_concurrent(env, scn, seed=0, schedule=None, p_tick=0.15, p_idle=0.1, bud
             else:
                 ch = None
             if ch is None:
-                o = rng.choice(opts)
+                pool = [o for o in opts if starve is None or (o[1], o[2]) not in starve] or opts
+                o = rng.choice(pool)
                 k = o[3] if rng.random() < 0.4 else 1
                 ch = [o[0], o[1], o[2], k]
         rec.append(ch)
